@@ -72,8 +72,9 @@ def head_stages(maxlen, sample=None):
 
 def p_c08(q):
     if q:
-        return head_stages(4) + [gen_bfs('X', 2, sample=0.12, link=True), gen_bfs('C', 1, link=True)]
-    return head_stages(5) + [mc_router('T'), gen_bfs('X', 2, link=True), gen_bfs('C', 2, link=True), gen_sim('X', 10, 60, link=True), gogen('mixed', 800)]
+        return head_stages(4) + [gogen('long', 100, fam='head', trace='Trace_Head'), gen_bfs('X', 2, sample=0.12, link=True), gen_bfs('C', 1, link=True)]
+    return head_stages(5) + [gogen('long', 3000, fam='head', trace='Trace_Head'), mc_router('T'), gen_bfs('X', 2, link=True), gen_bfs('C', 2, link=True),
+                             gen_sim('X', 10, 60, link=True), gogen('mixed', 800)]
 
 
 RULE_CORS = ('TLC enumerates the product of CORS configuration classes (origins x allowed headers x exposed x max-age x credentials, incl. invalid ones) and, per configuration, '
@@ -163,17 +164,20 @@ def plan(prop, tier):
         return {'stages': globals_stages(q) + group_stages(2, 'C13', 0.1 if q else 0.5)[2:] + [conc_stage('c07inst', 4, 2 if q else 30, 2, 15 if q else 40), conc_stage('c07quiet', 6, 2 if q else 30, 3, 15 if q else 40, 1),
                                                conc_stage('c07seq', 8, 6 if q else 80, 1, 0, 2)], 'rule': RULE_CONC, 'assumptions': ASSUME_CONC}
     if prop == 'C20':
-        return {'stages': params_stages(2, 1.0) + params_stages(3, 0.1 if q else 0.6)[1:], 'rule': RULE_PARAMS, 'assumptions': ASSUME_COMMON}
+        return {'stages': params_stages(2, 1.0) + params_stages(3, 0.1 if q else 0.6)[1:]
+                + [dict(gogen('bytes', 300 if q else 5000, fam='params', trace='Trace_Params'), replay_prefix=True, min_per_shard=20)],
+                'rule': RULE_PARAMS, 'assumptions': ASSUME_COMMON}
     if prop == 'C14':
         return {'stages': match_stages('hosts', 2 if q else 3, 1, 1.0 if q else 0.5), 'rule': RULE_MATCH, 'assumptions': ASSUME_COMMON}
     if prop == 'C15':
         return {'stages': match_stages('pathver', 0, 6 if q else 7) + match_stages('headerver', 0, 1), 'rule': RULE_MATCH, 'assumptions': ASSUME_COMMON}
     if prop == 'C13':
-        return {'stages': group_stages(2 if q else 3, 'C13', 0.5 if q else 0.25), 'rule': RULE_GROUP, 'assumptions': ASSUME_COMMON}
+        return {'stages': group_stages(2 if q else 3, 'C13', 0.5 if q else 0.25) + [gogen('bytes', 60 if q else 1500, fam='group', trace='Trace_Group')],
+                'rule': RULE_GROUP, 'assumptions': ASSUME_COMMON}
     if prop == 'C16':
         return {'stages': group_stages(2, 'C16', 0.08 if q else 0.5)[:3], 'rule': RULE_GROUP, 'assumptions': ASSUME_COMMON}
     if prop in ('C11', 'C12'):
-        return {'stages': cors_stages(0.2 if q else 1.0, 0), 'rule': RULE_CORS, 'assumptions': ASSUME_COMMON}
+        return {'stages': cors_stages(0.2 if q else 1.0, 0) + [gogen('rand', 150 if q else 3000, fam='cors')], 'rule': RULE_CORS, 'assumptions': ASSUME_COMMON}
     if prop == 'C08':
         return {'stages': p_c08(q), 'rule': RULE_HEAD, 'assumptions': ASSUME_COMMON}
     if prop in ROUTER_PLANS:
@@ -227,9 +231,9 @@ def p_c04(q):
 def p_c05(q):
     if q:
         return [mc_router('T'), gen_bfs('X', 2, sample=0.08), gen_bfs('B', 2, sample=0.15), gogen('bytes', 100), gogen('patterns', 1500, seedoff=2),
-                gogen('patenum4', 0, name='go-patenum4'), gogen('bytes', 60, fam='match', trace='Trace_Match', seedoff=3)] + cors_stages(0.06, 0)[1:]
+                gogen('patenum4', 0, name='go-patenum4'), gogen('bytes', 60, fam='match', trace='Trace_Match', seedoff=3), gogen('bytes', 40, fam='group', trace='Trace_Group', seedoff=4)] + cors_stages(0.06, 0)[1:]
     return [mc_router('T'), gen_bfs('X', 2, sample=0.5), gen_bfs('B', 2), gen_bfs('A', 2, sample=0.5), gogen('bytes', 3000), gogen('mixed', 1000, seedoff=1),
-            gogen('patterns', 30000, seedoff=2), gogen('patenum6', 0, name='go-patenum6'), gogen('bytes', 1500, fam='match', trace='Trace_Match', seedoff=3)] + cors_stages(0.5, 0)[1:]
+            gogen('patterns', 30000, seedoff=2), gogen('patenum6', 0, name='go-patenum6'), gogen('bytes', 1500, fam='match', trace='Trace_Match', seedoff=3), gogen('bytes', 1000, fam='group', trace='Trace_Group', seedoff=4)] + cors_stages(0.5, 0)[1:]
 
 
 def p_c17(q):
